@@ -132,7 +132,7 @@ def path_atoms(ctx, body, bb):
     atoms = []
     for r in guard_table(ctx, body):
         g = r['guard']
-        if g.bb != bb and cfg.dominates(g.bb, bb) and not ctx.rejecting(body, bb):
+        if g.bb != bb and ctx.holds_at(body, g.bb, bb) and not ctx.rejecting(body, bb):
             atoms.extend(r['atoms'])
     for (sw, cond, arms, targets) in ctx.path_conditions(body, bb):
         if set(arms) <= {'0', 'otherwise'} and len(arms) == 1 and cond.tag != 'discr':
